@@ -611,3 +611,68 @@ Fixpoint mismatches_from (i : nat) (hs : list history) : list (nat * nat) :=
       end
   end.
 Definition mismatches := mismatches_from 0.
+
+(** * The message level (types/msg.go ValidateBasic, keeper/msg_server.go) *)
+
+(* ValidateBasic of MsgCreateAtomicSwap, as far as the model's data goes:
+   timestamp positive, height span positive, amount a non-empty valid coin set
+   (for the single coin the keeper insists on: a positive amount; any other
+   length is refused by the keeper whatever ValidateBasic says).  Address
+   well-formedness, the 32-byte length of hash / swap id / random number and the
+   other-chain address lengths hold by construction of the model's indexes (the
+   driver only forms 32-byte values and short addresses at the message level).
+   MsgClaimAtomicSwap / MsgRefundAtomicSwap have only such format rules. *)
+Definition msg_validate_basic (o : op) : bool :=
+  match o with
+  | Create _ ts span _ _ _ coins _ =>
+      (0 <? ts) && (0 <? span) && (match coins with [(_, x)] => 0 <? x | _ => true end)
+  | _ => true
+  end.
+
+(* the msg server calls the keeper with crossChain = true *)
+Definition as_msg (o : op) : op :=
+  match o with
+  | Create h ts span sender recip soc coins _ => Create h ts span sender recip soc coins true
+  | _ => o
+  end.
+
+Definition msg_step (e : env) (s : state) (o : op) : outcome state unit :=
+  if msg_validate_basic o then step e s (as_msg o) else Err.
+
+Definition msg_step' (e : env) (s : state) (o : op) : state :=
+  match msg_step e s o with Ok s' _ => s' | _ => s end.
+
+(** ** histories in which each operation is either a keeper call (false) or a message (true) *)
+Record mhistory := mkMHist {
+  mh_env : env;
+  mh_init : state;
+  mh_steps : list (bool * op * obs)
+}.
+
+Fixpoint first_mismatch_m (e : env) (s sh : state) (h : list (bool * op * obs)) (i : nat) : option nat :=
+  match h with
+  | [] => None
+  | (m, o, ob) :: r =>
+      let res := if m then msg_step e s o else step e s o in
+      let s' := match res with Ok s1 _ => s1 | _ => s end in
+      let sh' := apply_obs sh ob in
+      if rclass_eqb (class_of res) (o_class ob) && state_eqb e s' sh' && inv_b e s' && op_ok_b e s o
+      then first_mismatch_m e s' sh' r (S i)
+      else Some i
+  end.
+
+Definition check_mhistory (h : mhistory) : option nat :=
+  if inv_b (mh_env h) (mh_init h) && env_wf_b (mh_env h)
+  then first_mismatch_m (mh_env h) (mh_init h) (mh_init h) (mh_steps h) 0
+  else Some 0%nat.
+
+Fixpoint mmismatches_from (i : nat) (hs : list mhistory) : list (nat * nat) :=
+  match hs with
+  | [] => []
+  | h :: r =>
+      match check_mhistory h with
+      | None => mmismatches_from (S i) r
+      | Some k => (i, k) :: mmismatches_from (S i) r
+      end
+  end.
+Definition mismatches_m := mmismatches_from 0.
